@@ -104,6 +104,12 @@ func c01Scenario(c *Ctx, p c01Params) Sched {
 				if max := 1 + int(elapsed)/(p.T+1); n > max {
 					return &vsched.Violation{Sig: "extra-fetch-in-lifetime", Msg: fmt.Sprintf("%d origin fetches of /k1 within %d s (lifetime %d s allows %d)", n, elapsed, p.T, max)}
 				}
+				// freshness of every hit (interval-sound), Age within bounds
+				if p.Prologue == "" {
+					if v := freshnessCheck(an, p.T); v != nil {
+						return v
+					}
+				}
 				// everybody answered 200 from some fetch
 				for _, rid := range an.Order {
 					r := an.Reqs[rid].Res
